@@ -595,6 +595,8 @@ def run(c, prog):
     from . import C06
     C06.rule_desc(core.Alias(c, "C16"), prog)
     C06.rule_name(core.Alias(c, "C16"), prog)     # the one lookup the XML reader performs for every instance: `Name`
+    from . import C08 as _C08
+    _C08.rule_default(core.Alias(c, "C16"), prog)     # the binary writer's default for a missing cell: the database's (through the superclass chain), not the type's zero
     from . import C04 as _C04
     _C04.rule_prefilter(core.Alias(c, "C16"), prog)     # a default whose type is the serialized type, not the declared one, must still be read
     # `an instance populated with its class's defaults is written and read back unchanged by both formats`: the scalar
